@@ -1,18 +1,17 @@
 CONSTANTS
-  MaxEv = 5
+  MaxEv = 2
   Delays = {1, 2, 5}
-  Steps = {1, 2, 3, 7}
-  MaxNow = 30
-  MaxRuns = 3
-  MaxClr = 2
+  Steps = {1, 3}
+  MaxNow = 8
+  MaxRuns = 2
+  MaxClr = 1
   Dev = {}
-  Slows = {0}
-  Export = TRUE
+  Slows = {0, 2}
+  Export = FALSE
 INIT Init
 NEXT Next
 INVARIANT NoEarlyFire
 INVARIANT DueOrder
 INVARIANT RepeatSpacing
 INVARIANT ClearSilences
-INVARIANT Full
 CHECK_DEADLOCK FALSE
